@@ -90,6 +90,7 @@ def admB (w : World (Option Int) Unit Nat) : Stmt (Option Int) Nat → Bool
   | .bind _ args => args.all (argCleanB w.stat)
   | .where_ c x y => argCleanB w.stat c && argCleanB w.stat x && argCleanB w.stat y
   | .watch n => match w.nodes[n]? with | some nd => !nd.toNStat.isW | none => true
+  | .ref n => match w.nodes[n]? with | some nd => !nd.toNStat.isW | none => true
   | _ => true
 
 theorem admB_sound {w : World (Option Int) Unit Nat} {s : Stmt (Option Int) Nat} (h : admB w s = true) :
@@ -105,6 +106,11 @@ theorem admB_sound {w : World (Option Int) Unit Nat} {s : Stmt (Option Int) Nat}
     intro nd hn
     simp only [admB, hn] at h
     simpa using h
+  | ref n =>
+    intro nd hn
+    simp only [admB, hn] at h
+    simpa using h
+  | readref _ => trivial
   | lit _ => trivial
   | obj _ => trivial
   | rootp _ => trivial
